@@ -3,7 +3,7 @@
 # usage: try_mutant.sh <patch.diff> [Cxx ...]      (default: all properties)
 set -u
 P="$(readlink -f "$1")"; shift
-cd /verif || exit 2
+cd "$(dirname "$(readlink -f "$0")")/.." || exit 2
 if [ -n "$(git -C /repo status --porcelain)" ]; then echo "/repo is not clean"; exit 2; fi
 git -C /repo apply "$P" || { echo "patch does not apply"; exit 2; }
 trap 'git -C /repo checkout -q -- .; git -C /repo clean -qfd' EXIT
